@@ -35,8 +35,8 @@ import (
 
 type plan struct {
 	Seed      uint64 `json:"seed"`
-	Kind      string `json:"kind"`        // producer direct group group848 txn share
-	Broker    string `json:"broker_mode"` // responsive stalled gone
+	Kind      string `json:"kind"`        // producer direct direct-oor group group848 txn share
+	Broker    string `json:"broker_mode"` // responsive stalled gone slowmeta
 	CloseAt   int    `json:"close_after_requests"`
 	BlockReb  bool   `json:"block_rebalance_on_poll"`
 	SecondMem bool   `json:"second_member"`
@@ -55,12 +55,22 @@ type outcome struct {
 }
 
 func run(p plan) (o outcome) {
-	var stalled, dead atomic.Bool
-	var reqs atomic.Int64
+	var stalled, dead, slowMeta atomic.Bool
+	var reqs, slowMetas atomic.Int64
 	fnet := &faultnet.Net{}
 	fnet.Decide = func(r *faultnet.Req) faultnet.Action {
 		if r.ClientID == "vclose" {
 			reqs.Add(1)
+			// "slowmeta": once the client has fetched, every Metadata answer takes 3 s - an
+			// offset (re)load that waits for a metadata refresh is then parked when Close comes
+			if p.Broker == "slowmeta" {
+				if r.Key == 1 {
+					slowMeta.Store(true)
+				} else if r.Key == 3 && slowMeta.Load() {
+					slowMetas.Add(1)
+					return faultnet.Action{Kind: faultnet.Delay, D: 3 * time.Second}
+				}
+			}
 		}
 		if dead.Load() {
 			// "gone": every connection dies as soon as a request arrives on it. (Shutting the
@@ -111,6 +121,10 @@ func run(p plan) (o outcome) {
 	case "producer":
 	case "direct":
 		opts = []kgo.Opt{kgo.ConsumeTopics("ct")}
+	case "direct-oor":
+		// starts beyond the log end: the first fetch answers OFFSET_OUT_OF_RANGE and the client
+		// reloads the offset, refreshing metadata first
+		opts = []kgo.Opt{kgo.ConsumePartitions(map[string]map[int32]kgo.Offset{"ct": {0: kgo.NewOffset().At(1 << 40), 1: kgo.NewOffset().At(1 << 40)}})}
 	case "group", "group848":
 		opts = []kgo.Opt{kgo.ConsumeTopics("ct"), kgo.ConsumerGroup("cg"), kgo.Balancers(kgo.StickyBalancer()), kgo.SessionTimeout(10 * time.Second), kgo.HeartbeatInterval(500 * time.Millisecond), kgo.RebalanceTimeout(10 * time.Second)}
 		if p.BlockReb {
@@ -198,6 +212,10 @@ func run(p plan) (o outcome) {
 		time.Sleep(time.Millisecond)
 	}
 	switch p.Broker {
+	case "slowmeta":
+		for slowMetas.Load() == 0 && time.Now().Before(limit) { // a refresh is being held (or the bound passes: then this is a plain responsive close)
+			time.Sleep(time.Millisecond)
+		}
 	case "stalled":
 		stalled.Store(true)
 	case "gone":
@@ -275,8 +293,8 @@ func run(p plan) (o outcome) {
 func TestCheck(t *testing.T) {
 	r := vh.Start(t, "C13")
 	n := r.Pick(1200, 15000)
-	kinds := []string{"producer", "direct", "group", "group848", "txn", "share"}
-	modes := []string{"responsive", "stalled", "gone"}
+	kinds := []string{"producer", "direct", "group", "group848", "txn", "share", "direct-oor"}
+	modes := []string{"responsive", "stalled", "gone", "slowmeta"}
 	for i := 0; i < n; i++ {
 		rng := r.Rand("c13", i)
 		p := plan{Seed: uint64(r.Seed)<<20 | uint64(i), Kind: kinds[i%len(kinds)], Broker: modes[(i/len(kinds))%len(modes)], CloseAt: 1 + rng.IntN(40)}
